@@ -461,15 +461,42 @@ fn layout_stratum(ctx: &Ctx, roundtrip: bool) {
                 continue;
             }
             for (pi, pad) in pads.into_iter().enumerate() {
-                // mostly 36x8; also frames whose chroma planes are a single column / a single row
-                let (w, h) = match (ssi + pi + ci) % 4 {
+                // sizes: 36x8; chroma planes of a single column / a single row; video-like sizes (many rows per "strip",
+                // odd numbers of rows per 16K samples); frames wider than 65536 and wider than 5461 with several chroma rows
+                let pick = (ssi * 5 + pi * 3 + ci) % 8;
+                let (w, h) = match pick {
                     0 => (1usize << ss.0, 8usize),
                     1 => (36, 1usize << ss.1),
+                    2 => [(176usize, 24usize), (640, 52), (960, 36), (1440, 24)][ci % 4],
+                    3 if !ctx.flag("lite") => (70_004, 2usize << ss.1),
+                    4 => (6_004, 4usize << ss.1),
                     _ => (36, 8),
                 };
                 let cfg = YuvConfig { subsampling_x: ss.0, subsampling_y: ss.1, ..cfg444(m, full, n) };
                 let mut r2 = rng.clone();
-                let f: Frame<u16> = mk_frame(w, h, ss, 0, |_, _, _| r2.below(maxc) as u32);
+                // content scenarios: random; constant chroma planes (128 is what Plane::new fills buffers with);
+                // letterbox (whole rows of nominal black with neutral chroma between coloured rows)
+                let scenario = (ssi + 2 * pi + ci / 3) % 4;
+                let mid = 1u32 << (n - 1);
+                let black = if full { 0 } else { 16u32 << (n - 8) };
+                let cconst = [128u32, 0, (maxc - 1) as u32, mid, mid + 1][(ci + pi) % 5];
+                let bh = 1usize << ss.1;
+                let f: Frame<u16> = mk_frame(w, h, ss, 0, |p, _x, y| {
+                    let v = r2.below(maxc) as u32;
+                    match scenario {
+                        1 if p > 0 => cconst,
+                        2 => {
+                            // luma rows [bh, 2*bh) and the last block of rows are black bars; chroma row 1 and the last are neutral
+                            let (ly, rows) = if p == 0 { (y / bh, h / bh) } else { (y, h / bh) };
+                            if rows >= 3 && (ly == 1 || ly == rows - 1) {
+                                if p == 0 { black } else { mid }
+                            } else {
+                                v
+                            }
+                        }
+                        _ => v,
+                    }
+                });
                 rng.next();
                 // rebuild with the requested per-plane paddings, same visible samples
                 let (cw, ch) = (w >> ss.0, h >> ss.1);
@@ -481,6 +508,13 @@ fn layout_stratum(ctx: &Ctx, roundtrip: bool) {
                     for v in g.planes[p].data.iter_mut() {
                         *v = r2.below(maxc) as u16;
                     }
+                    // for half of the configs the visible area is moved inside the padding by hand (a cropped view:
+                    // odd origins, which Plane::new itself never produces)
+                    let padp = [pad.0, pad.1, pad.2][p];
+                    if ci % 2 == 0 && padp >= 1 {
+                        g.planes[p].cfg.xorigin += if padp >= 5 { 3 } else { 1 };
+                        g.planes[p].cfg.yorigin += 1;
+                    }
                     let stride = g.planes[p].cfg.stride;
                     let d = g.planes[p].data_origin_mut();
                     for y in 0..ph {
@@ -488,6 +522,10 @@ fn layout_stratum(ctx: &Ctx, roundtrip: bool) {
                             d[y * stride + x] = f.planes[p].p(x, y);
                         }
                     }
+                }
+                if scenario == 3 {
+                    g.planes[0].cfg.xdec = ss.0 as usize;
+                    g.planes[0].cfg.ydec = ss.1 as usize;
                 }
                 let Ok(yuv) = Yuv::new(g, cfg) else {
                     ev::violation(format!("{prop}|layout|frame-rejected"), format!("well-formed {w}x{h} frame rejected ({ss:?}, pads {pad:?})"), J::Null);
@@ -536,7 +574,7 @@ fn layout_stratum(ctx: &Ctx, roundtrip: bool) {
             if let Some((_, ss, pad, x, y)) = lw.at {
                 ev::violation(
                     format!("C01|layout-decode|{m:?}|{}|n={n}", if full { "full" } else { "limited" }),
-                    format!("multi-row frame (36x8, 1-chroma-column or 1-chroma-row), subsampling {ss:?}, plane paddings {pad:?}: pixel ({x},{y}) is {:.3e} from the H.273 value of its (Y, U(x>>ss_x,y>>ss_y), V(..)) samples", lw.err),
+                    format!("multi-row frame (36x8, 1-chroma-column/row, video-like or very wide; random, constant-chroma, letterbox or luma-tagged content), subsampling {ss:?}, plane paddings {pad:?}: pixel ({x},{y}) is {:.3e} from the H.273 value of its (Y, U(x>>ss_x,y>>ss_y), V(..)) samples", lw.err),
                     J::obj().set("kind", "layout").set("matrix", format!("{m:?}")).set("full", full).set("n", n).set("ss", [ss.0, ss.1]).set("pad", [pad.0, pad.1, pad.2]).set("x", x).set("y", y),
                 );
             }
@@ -577,6 +615,32 @@ fn layout_stratum(ctx: &Ctx, roundtrip: bool) {
                     }
                 }
             }
+        }
+        if !ctx.flag("lite") {
+            let n8: Vec<usize> = (0..cfgs.len()).filter(|i| cfgs[*i].2 == 8).collect();
+            let switches = 140_000usize;
+            for k in 0..switches {
+                // alternate ranges every step, rotate matrices slowly; three pixels per decode, codes revisited rarely
+                let ci = n8[(k % 2) * 7 + (k / 2) % 7 % (n8.len() / 2)];
+                let (m, full, n) = cfgs[ci];
+                let c = (k / 257 % 256) as u32;
+                let tri = [[c, 255 - c, (c * 7 + 3) % 256], [(k % 256) as u32, 128, 64], [200, c, c]];
+                let mut w = Worst::new();
+                let st = DecStats::default();
+                decode_check_one::<u8>(ci, (m, full, n), &tri, &mut w, &st, None);
+                seq_evals += 3;
+                if !(w.err <= TOL_C01) {
+                    if let Some(at) = w.at {
+                        ev::violation(
+                            format!("C01|decode-accuracy|after-many-config-switches|{m:?}|{}", if full { "full" } else { "limited" }),
+                            format!("after {k} alternating 8-bit decodes on one thread: |rgb - H.273| = {:.3e}", w.err),
+                            dec_case(&cfgs, &at).set("err", w.err).set("switches", k),
+                        );
+                        break;
+                    }
+                }
+            }
+            ev::observe("single_thread_config_switches", switches);
         }
         ev::observe("sequential_order_passes", 3);
         ev::add_evals(seq_evals);
@@ -783,14 +847,28 @@ struct EncAcc {
 
 fn encode_check<T: Pixel>(ci: usize, (m, full, n): (MC, bool, u8), px: &[[f32; 3]], acc: &mut EncAcc) {
     let u8s = std::mem::size_of::<T>() == 1;
-    let cfg = cfg444(m, full, n);
     let len = px.len();
+    // the encoder uses only matrix, range and depth: the transfer / primaries labels of the request (which the
+    // output must carry verbatim) and of the source image rotate through all supported values
+    let rot = ci * 5 + len;
+    let cfg = YuvConfig { transfer_characteristics: TRANSFERS[rot % 14], color_primaries: PRIMARIES[(rot / 14 + ci) % 11], ..cfg444(m, full, n) };
     let case0 = || J::obj().set("kind", "encode").set("matrix", format!("{m:?}")).set("full", full).set("n", n).set("u8", u8s).set("rgb", px_json(px[0]));
-    let rgb = Rgb::new(px.to_vec(), len, 1, TC::BT1886, CP::BT709).expect("len matches");
-    let yuv: Yuv<T> = match Yuv::try_from((&rgb, cfg)) {
+    let (st, sp) = (TRANSFERS[(rot / 3) % 14], PRIMARIES[(rot / 5) % 11]);
+    // three ways to hand the image over: a fresh image by reference, by value, and an image that was built with
+    // other (grey) content and then overwritten in place through data_mut()
+    let entry = (ci + len) % 3;
+    let rgb = if entry == 2 {
+        let mut r = Rgb::new(vec![[0.5f32; 3]; len], len, 1, st, sp).expect("len matches");
+        r.data_mut().copy_from_slice(px);
+        r
+    } else {
+        Rgb::new(px.to_vec(), len, 1, st, sp).expect("len matches")
+    };
+    let res = if entry == 1 { Yuv::try_from((rgb.clone(), cfg)) } else { Yuv::try_from((&rgb, cfg)) };
+    let yuv: Yuv<T> = match res {
         Ok(y) => y,
         Err(e) => {
-            ev::violation(format!("C02|encode-error|{m:?}"), format!("Yuv::try_from((&Rgb,cfg)) failed: {e:?}"), case0());
+            ev::violation(format!("C02|encode-error|{m:?}"), format!("Yuv::try_from(({}Rgb,cfg)) failed: {e:?}", if entry == 1 { "" } else { "&" }), case0());
             return;
         }
     };
@@ -859,6 +937,41 @@ pub fn c02(ctx: &Ctx) {
             if n == 8 {
                 encode_check::<u8>(ci, cfg, part, &mut acc);
                 n_evals += part.len() as u64;
+            }
+        }
+        // every (transfer, primaries) label pair on a 3-pixel image: the output carries exactly the requested
+        // config and the same samples whatever the labels say
+        if round == 0 {
+            let probe = [px[0], px[px.len() / 2], [0.25, 0.5, 0.75]];
+            let rgb = Rgb::new(probe.to_vec(), 3, 1, TC::SRGB, CP::BT709).expect("len");
+            let mut first: Option<Vec<u32>> = None;
+            for t in TRANSFERS {
+                for p in PRIMARIES {
+                    let c = YuvConfig { transfer_characteristics: t, color_primaries: p, ..cfg444(m, full, n) };
+                    n_evals += 3;
+                    match Yuv::<u16>::try_from((&rgb, c)) {
+                        Err(e) => ev::violation(format!("C02|encode-error|{m:?}"), format!("{e:?} for labels ({t:?}, {p:?})"), J::obj().set("kind", "encode-labels").set("matrix", format!("{m:?}")).set("full", full).set("n", n).set("transfer", format!("{t:?}")).set("primaries", format!("{p:?}"))),
+                        Ok(y) => {
+                            if y.config() != c {
+                                ev::violation(
+                                    format!("C02|config-or-dims|labels|{m:?}"),
+                                    format!("requested config {c:?}, output carries {:?}", y.config()),
+                                    J::obj().set("kind", "encode-labels").set("matrix", format!("{m:?}")).set("full", full).set("n", n).set("transfer", format!("{t:?}")).set("primaries", format!("{p:?}")),
+                                );
+                            }
+                            let codes: Vec<u32> = (0..3).flat_map(|pl| (0..3).map(move |i| (pl, i))).map(|(pl, i)| y.data()[pl].p(i, 0) as u32).collect();
+                            match &first {
+                                None => first = Some(codes),
+                                Some(f) if *f != codes => ev::violation(
+                                    format!("C02|labels-change-samples|{m:?}"),
+                                    format!("the same pixels encode to {codes:?} with labels ({t:?}, {p:?}) but to {f:?} with the first label pair"),
+                                    J::obj().set("kind", "encode-labels").set("matrix", format!("{m:?}")).set("full", full).set("n", n).set("transfer", format!("{t:?}")).set("primaries", format!("{p:?}")),
+                                ),
+                                _ => {}
+                            }
+                        }
+                    }
+                }
             }
         }
         // other contexts for the same pixels: images of 1..7 pixels, and reversed with every pixel doubled
@@ -1059,7 +1172,7 @@ pub fn c16(ctx: &Ctx) {
     // multi-row frames: a coloured first chroma row above neutral rows, chroma planes one or a few columns wide,
     // U and V padded differently with non-neutral padding contents: the neutral samples must still decode to greys
     {
-        let shapes: [(usize, usize, (u8, u8)); 5] = [(1, 4, (0, 0)), (2, 4, (1, 1)), (4, 8, (2, 2)), (6, 4, (1, 0)), (5, 6, (0, 1))];
+        let shapes: [(usize, usize, (u8, u8)); 8] = [(1, 4, (0, 0)), (2, 4, (1, 1)), (4, 8, (2, 2)), (6, 4, (1, 0)), (5, 6, (0, 1)), (8, 4, (1, 1)), (12, 2, (2, 0)), (6, 3, (1, 0))];
         let pads: [(usize, usize, usize); 3] = [(0, 17, 0), (0, 0, 17), (3, 1, 32)];
         let wm = Mutex::new(Worst::<(usize, usize, usize, [f32; 3])>::new());
         let nframes = AtomicU64::new(0);
@@ -1071,7 +1184,9 @@ pub fn c16(ctx: &Ctx) {
             let mid = 1u32 << (n - 1);
             let mut lw = Worst::new();
             for (si, (w, h, ss)) in shapes.into_iter().enumerate() {
-                let pad = pads[(si + ci) % 3];
+              // pattern 0: a coloured first chroma row above neutral rows; pattern 1: a neutral first chroma column left of coloured columns
+              for pattern in 0..2usize {
+                let pad = pads[(si + ci + pattern) % 3];
                 let (cw, ch) = (w >> ss.0, h >> ss.1);
                 let mut g: Frame<u16> = Frame {
                     planes: [Plane::new(w, h, 0, 0, pad.0, pad.0), Plane::new(cw, ch, ss.0 as usize, ss.1 as usize, pad.1, pad.1), Plane::new(cw, ch, ss.0 as usize, ss.1 as usize, pad.2, pad.2)],
@@ -1081,11 +1196,18 @@ pub fn c16(ctx: &Ctx) {
                         *v = rng.below(maxc) as u16; // padding is anything but neutral
                     }
                     let (pw, ph) = if p == 0 { (w, h) } else { (cw, ch) };
+                    // for half of the configs the visible area is moved inside the padding by hand (odd origins)
+                    let padp = [pad.0, pad.1, pad.2][p];
+                    if (ci + si) % 2 == 0 && padp >= 1 {
+                        g.planes[p].cfg.xorigin += 1;
+                        g.planes[p].cfg.yorigin += 1;
+                    }
                     let stride = g.planes[p].cfg.stride;
                     let d = g.planes[p].data_origin_mut();
                     for y in 0..ph {
                         for x in 0..pw {
-                            d[y * stride + x] = if p == 0 || y == 0 { rng.below(maxc) as u16 } else { mid as u16 };
+                            let coloured = if pattern == 0 { y == 0 } else { x > 0 };
+                            d[y * stride + x] = if p == 0 || coloured { rng.below(maxc) as u16 } else { mid as u16 };
                         }
                     }
                 }
@@ -1093,20 +1215,25 @@ pub fn c16(ctx: &Ctx) {
                 let Ok(yuv) = Yuv::new(g, cfg) else { continue };
                 let Ok(rgb) = Rgb::try_from(&yuv) else { continue };
                 nframes.fetch_add(1, Relaxed);
-                for y in (1usize << ss.1)..h {
+                for y in 0..h {
                     for x in 0..w {
+                        let neutral = if pattern == 0 { (y >> ss.1) > 0 } else { (x >> ss.0) == 0 };
+                        if !neutral {
+                            continue;
+                        }
                         let q = rgb.data()[y * w + x];
                         let sp = if q.iter().any(|v| v.is_nan()) { f64::NAN } else { (q[0].max(q[1]).max(q[2]) - q[0].min(q[1]).min(q[2])) as f64 };
                         lw.upd(sp, (si, x, y, q));
                     }
                 }
+              }
             }
             if !(lw.err <= 5e-7) {
                 if let Some((si, x, y, q)) = lw.at {
                     let (w, h, ss) = shapes[si];
                     ev::violation(
                         format!("C16|grey-spread|multi-row|{m:?}|{}|n={n}", if full { "full" } else { "limited" }),
-                        format!("{w}x{h} frame, subsampling {ss:?}, coloured first chroma row: the neutral-chroma pixel ({x},{y}) decodes to {q:?} (spread {:.3e} > 5e-7)", lw.err),
+                        format!("{w}x{h} frame, subsampling {ss:?}, coloured first chroma row / coloured chroma columns right of a neutral one: the neutral-chroma pixel ({x},{y}) decodes to {q:?} (spread {:.3e} > 5e-7)", lw.err),
                         J::obj().set("kind", "grey-multirow").set("matrix", format!("{m:?}")).set("full", full).set("n", n).set("w", w).set("h", h).set("ss", [ss.0, ss.1]).set("x", x).set("y", y),
                     );
                 }
@@ -1221,6 +1348,40 @@ pub fn c16(ctx: &Ctx) {
     let mut greys: Vec<[f32; 3]> = (0..=ng).map(|i| [i as f32 / ng as f32; 3]).collect();
     for _ in 0..(ng / 4) {
         greys.push([rng.unit_bits(); 3]);
+    }
+    // a second image interleaves the greys with coloured and non-finite pixels (not judged): a grey must not inherit anything
+    {
+        let mut mixed: Vec<[f32; 3]> = Vec::with_capacity(greys.len() / 8 * 3);
+        let companions = [[1.0f32, 0.0, 0.0], [0.1, 0.9, 0.3], [f32::NAN, 0.5, 0.5], [0.0, 0.0, 1.0], [f32::INFINITY, 1.0, 0.0], [0.9, 0.9, 0.1]];
+        for (i, g) in greys.iter().enumerate().filter(|(i, _)| i % 8 == 3) {
+            mixed.push(companions[(i / 8) % companions.len()]);
+            mixed.push(*g);
+        }
+        let nm = mixed.len();
+        let xm = Xyb::from(LinearRgb::new(mixed.clone(), nm, 1).unwrap());
+        let hm = Hsl::from(LinearRgb::new(mixed.clone(), nm, 1).unwrap());
+        let mut bad = 0u64;
+        let mut first = None;
+        for i in (1..nm).step_by(2) {
+            let g = mixed[i][0];
+            let (p, q) = (xm.data()[i], hm.data()[i]);
+            let ok = p[0].abs() <= 1e-6 && (p[1] - p[2]).abs() <= 1e-6 && q[0] == 0.0 && q[1] == 0.0 && q[2].to_bits() == g.to_bits();
+            if !ok {
+                bad += 1;
+                if first.is_none() {
+                    first = Some((g, mixed[i - 1], p, q));
+                }
+            }
+        }
+        nontrivial += (nm / 2) as u64;
+        ev::observe("greys_between_coloured_and_nonfinite_pixels", nm / 2);
+        if let Some((g, comp, p, q)) = first {
+            ev::violation(
+                "C16|grey-after-companion",
+                format!("{bad} greys; first: grey {g} following pixel {comp:?} maps to XYB {p:?}, HSL {q:?} (expected X=0, Y=B, HSL (0,0,{g}))"),
+                J::obj().set("kind", "grey-after-companion").set("grey", g).set("companion", px_json(comp)),
+            );
+        }
     }
     let n = greys.len();
     nontrivial += n as u64;
